@@ -94,6 +94,11 @@ def long_shapes():
     c["pcfg_small_token"] = (cfgspec.G("N0", V, [(t, "N0", ("a", "N0")), (F(499, 1000), "N0", ("b", "N0")), (F(1, 2), "N0", ("c",))]), "a")
     c["two_level"] = (cfgspec.G("N0", V, [(F(1, 2), "N0", ("N1", "c")), (t, "N1", ("N1", "a")), (t, "N1", ("a",)),
                                           (F(1, 3), "N0", ("b",))]), "a")
+    # two analyses of the same span at very different scales (1e-5 against 1/2 per token) joined by a unary rule: after ~70 tokens the
+    # small one is exactly 0.0 in the rescaled chart while its item is still present (seeded change C04-6)
+    e = F(1, 100000)
+    c["competing_scales"] = (cfgspec.G("N0", V, [(F(1), "N0", ("N1", "c")), (F(1), "N0", ("N3", "c")), (F(1), "N3", ("N1",)), (F(1), "N3", ("N2",)),
+                                                 (e, "N1", ("a", "N1")), (e, "N1", ("a",)), (F(1, 2), "N2", ("a", "N2")), (F(1, 2), "N2", ("a",))]), "a")
     return c
 
 
@@ -149,6 +154,8 @@ def make_cases(tier, seed, n_random=None, maxlen=None, long_n=None):
         # the decay would still underflow here (strengthened after the independently seeded change C04-1)
         gL, tok = shapes["right_linear"]
         cases.append(dict(kind="deep", name="deep:right_linear", g=gL, token=tok, n=600, heap="real"))
+        gL, tok = shapes["competing_scales"]
+        cases.append(dict(kind="long", name="long:competing_scales", g=gL, token=tok, n=90, positions=[60, 75, 90], heap="real"))
     else:
         gL, tok = shapes["right_linear"]
         for n_ in (600, 1500):
